@@ -119,6 +119,15 @@ def check_line(case, ev, cx=None):
     got, got_io, exc = run_both(line, cx, undo)
     if exc is not None:
         return core.exc_finding(exc, case, "subst/")
+    if case.get("both") and cx is not None:
+        # the other direction for the same text on the same objects afterwards (library use)
+        m4b, m6b = (cx["r4"].anonymize, cx["r6"].anonymize) if undo else (cx["r4"].deanonymize, cx["r6"].deanonymize)
+        want_b, _ = T.expected(line, m4b, m6b, preserved)
+        got_b, _, exc = run_both(line, cx, not undo)
+        if exc is not None:
+            return core.exc_finding(exc, case, "subst/")
+        if want_b is not None and got_b != want_b:
+            return Finding("subst/other-direction-on-the-same-objects-wrong", "cfg=%r line %r: after %s, %s gives %r, expected %r" % (cfg, line, "undo" if undo else "anonymize", "anonymize" if undo else "undo", got_b, want_b), case)
     for via, g in (("line", got), ("io", got_io)):
         if g != want:
             cls, side = _attribute(line, want, g, cfg, cx["r4"], cx["r6"], undo)
@@ -207,7 +216,7 @@ def _line_case(draw):
         # glue something to a token: exercises the boundary rules with arbitrary characters
         i = draw(st.integers(0, len(line)))
         line = line[:i] + draw(st.text(alphabet=st.sampled_from(list(BOUNDARY) + ["é", "\t", "%", "x", "Z"]), min_size=1, max_size=2)) + line[i:]
-    return {"line": line, "cfg": cfg, "undo": draw(st.integers(0, 3)) == 0}
+    return {"line": line, "cfg": cfg, "undo": draw(st.integers(0, 3)) == 0, "both": draw(st.integers(0, 3)) == 0}
 
 
 def t_lines(shard, nshards, seed, ev, known, n=500):
